@@ -146,3 +146,19 @@ Proof.
     + split; [|vm_compute; reflexivity].
       repeat constructor; simpl; try lia; discriminate.
 Qed.
+
+(* check with trust_cache: a foreign, longer file under the id of tree pack 5 is still evicted
+   by the size-based clean-up before the trees are read *)
+Example ex_check_trust_cache :
+  let c := mkcache [((Pack, 5%N), [9%N; 9%N; 9%N; 9%N; 9%N])] [] in
+  let l := [(5%N, 3%nat); (6%N, 3%nat)] in
+  let ops := check_cleanup true l [] ++ [OReadPartial Pack 5%N true 0 3] in
+  CacheFaulty ex_content c /\
+  fst (run_c ops (mkst c ex_be_packs)) = fst (run_u ops ex_be_packs) /\
+  fst (run_c [OReadPartial Pack 5%N true 0 3] (mkst c ex_be_packs)) <> fst (run_u [OReadPartial Pack 5%N true 0 3] ex_be_packs).
+Proof.
+  cbv zeta. split.
+  - intros k d F. right. simpl in F. destruct (key_eqb k (Pack, 5%N)) eqn:E; [|discriminate].
+    apply key_eqb_eq in E. subst k. inv F. simpl. lia.
+  - split; vm_compute; [reflexivity | discriminate].
+Qed.
